@@ -31,21 +31,27 @@ fn k_c01_e2e(depth: u8) {
 }
 
 /// Lemma R on the real producer: base cell and in-base-cell coordinates of every position are in the range the scaling step relies on.
-fn k_c01_r() {
+/// region: 0 = north cap (lat > T), 1 = equatorial (|lat| <= T), 2 = south cap; neg: sign bit of lon
+fn k_c01_r(region: u8, neg: bool) {
   let (lon, lat) = lonlat();
+  kani::assume((lon.to_bits() >> 63 == 1) == neg);
+  kani::assume(match region { 0 => lat > C_T, 1 => lat >= -C_T && lat <= C_T, _ => lat < -C_T });
   let (d0h, l, h) = Layer::d0h_lh_in_d0c(lon, lat);
-  kani::cover!(lat > C_T && lon > 7.0, "north cap, second turn");
-  kani::cover!(lat < -C_T && lon < 0.0, "south cap, negative longitude");
-  kani::cover!(d0h >= 4 && d0h < 8, "equatorial base cell");
+  kani::cover!(lon > 7.0 || lon < -7.0, "second turn");
+  kani::cover!(lon == 0.0, "zero longitude");
   assert!(guarantee_r(d0h, l, h), "C01-R: base cell / in-cell coordinates out of the range the scaling step relies on");
 }
 
 /// Lemma P on the real producer: (base cell, l, h) is the reference projection of the position, from the same libm values.
 /// Polar clause: decided for cosines with at most 10 significant bits (see kani/c17.rs for the reason).
-fn k_c01_p() {
+/// region: 0 = north cap, 1 = equatorial, 2 = south cap; neg: sign bit of lon;
+/// bits: polar caps only: number of significant bits of the cosine for which the product clause is decided (0 = product clause off)
+fn k_c01_p(region: u8, neg: bool, bits: u8) {
   let (lon, lat) = lonlat();
+  kani::assume((lon.to_bits() >> 63 == 1) == neg);
+  kani::assume(match region { 0 => lat > C_T, 1 => lat >= -C_T && lat <= C_T, _ => lat < -C_T });
   let (d0h, l, h) = Layer::d0h_lh_in_d0c(lon, lat);
-  kani::assume(d0h < 12);
+  kani::assume(d0h < 12);                                                                   // decided by lemma R
   let x = f64::from_bits(lon.to_bits() & 0x7FFF_FFFF_FFFF_FFFF) * FOUR_OVER_PI_K;        // in [0, 32.1]
   let x8 = x - 8.0 * ((x / 8.0) as u64 as f64);                                          // x mod 8, exact
   let xg = if lon.to_bits() >> 63 == 0 { x8 } else if x8 == 0.0 { 0.0 } else { 8.0 - x8 };  // global X in [0, 8)
@@ -53,26 +59,37 @@ fn k_c01_p() {
   let yc = BASE_CY[d0h as usize] as f64 + h - 1.0;
   let tol = 1.4210854715202004e-14;   // 2^-46
   let alat = f64::from_bits(lat.to_bits() & 0x7FFF_FFFF_FFFF_FFFF);
-  if alat <= C_T {
+  kani::cover!(lon > 7.0 || lon < -7.0, "second turn");
+  if region == 1 {
     let yr = lat.sin() * 1.5;
     let mut dx = xc - xg;
     if dx > 4.0 { dx -= 8.0; }
     if dx < -4.0 { dx += 8.0; }
     kani::cover!(d0h >= 8, "equatorial point in a south polar base cell");
-    kani::cover!(d0h == 4 && l < 0.0, "west half of base cell 4");
+    kani::cover!(d0h >= 4 && d0h < 8, "equatorial base cell");
     assert!(dx <= tol && dx >= -tol && (yc - yr) <= tol && (yc - yr) >= -tol, "C01-P: (base cell, l, h) is not the reference projection of the position (equatorial region)");
   } else {
     let c = (alat / 2.0 + PI_OVER_FOUR_K).cos();
     let t = SQRT6_K * c;
     let q = (xg / 2.0) as u64 as f64;           // facet 0..3
     let xm2 = xg - 2.0 * q;                     // in [0, 2)
-    let narrow = (c.to_bits() & ((1u64 << 43) - 1)) == 0;
-    kani::cover!(lat < 0.0 && lon < 0.0 && narrow && xm2 != 0.0, "south cap, negative longitude");
-    if xm2 != 0.0 && narrow {                   // positions exactly on a facet seam are decided by the native oracle only
-      let xr = (2.0 * q + 1.0) + (xm2 - 1.0) * t;
-      let yr = if lat > 0.0 { 2.0 - t } else { t - 2.0 };
-      let dx = xc - xr;
-      assert!(dx <= tol && dx >= -tol && (yc - yr) <= tol && (yc - yr) >= -tol, "C01-P: (base cell, l, h) is not the reference projection of the position (polar cap)");
+    let yr = if region == 0 { 2.0 - t } else { t - 2.0 };
+    assert!((yc - yr) <= tol && (yc - yr) >= -tol, "C01-P: h is not the reference projection of the latitude (polar cap)");
+    if xm2 != 0.0 {                             // positions exactly on a facet seam are decided by the native oracle only
+      // base cell = the facet of the longitude; l has the side of the longitude in its facet and stays inside the facet
+      assert!(d0h as f64 == q + if region == 0 { 0.0 } else { 8.0 }, "C01-P: wrong polar base cell for the longitude");
+      let al = if l < 0.0 { -l } else { l };
+      assert!(al <= t + tol && (l == 0.0 || (l < 0.0) == (xm2 < 1.0)), "C01-P: l is outside the facet or on the wrong side of its centre (polar cap)");
+      if bits > 0 {
+        // exact product clause, for cosines with at most `bits` significant bits (two symbolic 53x53 multipliers are out of reach)
+        let narrow = (c.to_bits() & ((1u64 << (53 - bits as u32)) - 1)) == 0;
+        kani::cover!(narrow, "product clause reached");
+        if narrow {
+          let xr = (2.0 * q + 1.0) + (xm2 - 1.0) * t;
+          let dx = xc - xr;
+          assert!(dx <= tol && dx >= -tol, "C01-P: l is not the reference projection of the longitude (polar cap)");
+        }
+      }
     }
   }
 }
